@@ -25,13 +25,46 @@ var QueryPrefixes = [][]Tok{
 	{{KBraceL, ""}, {KName, "a"}, {KParenL, ""}, {KName, "a"}, {KColon, ""}, {KBraceL, ""}, {KName, "a"}, {KColon, ""}},
 }
 
+func qDirOpen(pre ...Tok) []Tok {
+	return append(append([]Tok(nil), pre...), Tok{Kind: KAt}, Tok{KName, "a"}, Tok{Kind: KParenL}, Tok{KName, "a"}, Tok{Kind: KColon})
+}
+
+// QueryHoles: (opening, closing) around a hole at every value position of the
+// executable grammar - the two constant ones (variable default, variable
+// directive) and the ones where variables are allowed - and at the name
+// positions that follow a punctuator or keyword (alias, type condition, variable).
+var QueryHoles = [][2][]Tok{
+	// const: default value of a variable
+	{{{KName, "query"}, {Kind: KParenL}, {Kind: KDollar}, {KName, "a"}, {Kind: KColon}, {KName, "a"}, {Kind: KEquals}}, {{Kind: KParenR}, {Kind: KBraceL}, {KName, "a"}, {Kind: KBraceR}}},
+	// const (listed finding: parsed as non-const): directive on a variable definition
+	{qDirOpen(Tok{KName, "query"}, Tok{Kind: KParenL}, Tok{Kind: KDollar}, Tok{KName, "a"}, Tok{Kind: KColon}, Tok{KName, "a"}), {{Kind: KParenR}, {Kind: KParenR}, {Kind: KBraceL}, {KName, "a"}, {Kind: KBraceR}}},
+	// variables allowed: field argument, field / operation / spread / inline fragment / fragment definition directives
+	{{{Kind: KBraceL}, {KName, "a"}, {Kind: KParenL}, {KName, "a"}, {Kind: KColon}}, {{Kind: KParenR}, {Kind: KBraceR}}},
+	{qDirOpen(Tok{Kind: KBraceL}, Tok{KName, "a"}), {{Kind: KParenR}, {Kind: KBraceR}}},
+	{qDirOpen(Tok{KName, "query"}), {{Kind: KParenR}, {Kind: KBraceL}, {KName, "a"}, {Kind: KBraceR}}},
+	{qDirOpen(Tok{Kind: KBraceL}, Tok{Kind: KSpread}, Tok{KName, "a"}), {{Kind: KParenR}, {Kind: KBraceR}}},
+	{qDirOpen(Tok{Kind: KBraceL}, Tok{Kind: KSpread}), {{Kind: KParenR}, {Kind: KBraceL}, {KName, "a"}, {Kind: KBraceR}, {Kind: KBraceR}}},
+	{qDirOpen(Tok{KName, "fragment"}, Tok{KName, "a"}, Tok{KName, "on"}, Tok{KName, "a"}), {{Kind: KParenR}, {Kind: KBraceL}, {KName, "a"}, {Kind: KBraceR}}},
+	// name positions after a punctuator / keyword
+	{{{Kind: KBraceL}, {KName, "a"}, {Kind: KColon}}, {{Kind: KBraceR}}},
+	{{{Kind: KBraceL}, {Kind: KSpread}, {KName, "on"}}, {{Kind: KBraceL}, {KName, "a"}, {Kind: KBraceR}, {Kind: KBraceR}}},
+	{{{KName, "fragment"}, {KName, "a"}, {KName, "on"}}, {{Kind: KBraceL}, {KName, "a"}, {Kind: KBraceR}}},
+	{{{KName, "query"}, {Kind: KParenL}, {Kind: KDollar}}, {{Kind: KColon}, {KName, "a"}, {Kind: KParenR}, {Kind: KBraceL}, {KName, "a"}, {Kind: KBraceR}}},
+	{{{Kind: KBraceL}, {KName, "a"}, {Kind: KParenL}, {KName, "a"}, {Kind: KColon}, {Kind: KDollar}}, {{Kind: KParenR}, {Kind: KBraceR}}},
+}
+
 func queryStream() ([]Tok, *ast.Source) {
 	k := verifrt.Param("k", 3)
 	pre := QueryPrefixes[verifrt.Param("prefix", 0)]
-	verifrt.SetOpt("unwind", len(pre)+k+3)
-	verifrt.SetOpt("depth", 8*(len(pre)+k)+40)
+	var suf []Tok
+	if h := verifrt.Param("hole", -1); h >= 0 {
+		pre, suf = QueryHoles[h][0], QueryHoles[h][1]
+	}
+	verifrt.SetOpt("unwind", len(pre)+k+len(suf)+3)
+	verifrt.SetOpt("depth", 8*(len(pre)+k+len(suf))+40)
 	verifrt.SetOpt("merge", verifrt.Param("merge", 0))
 	toks := append(append([]Tok(nil), pre...), SymbolicStream(k, Alphabet(QueryNames, verifrt.Param("invalid", 0) != 0), verifrt.Param("first", -1))...)
+	toks = append(toks, suf...)
 	return toks, Install(toks)
 }
 
